@@ -25,6 +25,8 @@ from concurrent.futures import ProcessPoolExecutor, as_completed
 import multiprocessing as mp
 
 VERIF = os.path.dirname(os.path.dirname(os.path.abspath(__file__)))
+# evidence/ and replays/ go under OUT (== VERIF except when a mutant is being evaluated in a scratch worktree)
+OUT = os.environ.get("VERIF_OUT") or VERIF
 REPO = os.environ.get("FFCX_REPO", "/repo")
 EVIDENCE_SCHEMA = "/root/.vp/EVIDENCE.schema.json"
 NCPU = int(os.environ.get("VERIF_JOBS", os.cpu_count() or 4))
@@ -123,7 +125,7 @@ class Check:
         if key in self._seen_keys:
             return
         self._seen_keys.add(key)
-        d = os.path.join(VERIF, "replays", self.pid)
+        d = os.path.join(OUT, "replays", self.pid)
         os.makedirs(d, exist_ok=True)
         fn = re.sub(r"[^A-Za-z0-9_.+-]+", "_", key)[:150]
         if len(fn) < len(key):
@@ -138,7 +140,7 @@ class Check:
             "recipe": _jsonable(recipe),
             "expected": _jsonable(expected),
             "observed": _jsonable(observed),
-            "how_to_run": f"./check {self.pid} --replay {os.path.relpath(path, VERIF)}",
+            "how_to_run": f"./check {self.pid} --replay {os.path.relpath(path, OUT)}",
         }
         with open(path, "w") as f:
             json.dump(doc, f, indent=1, sort_keys=True)
@@ -175,8 +177,8 @@ class Check:
         }
         if extra:
             ev.update(_jsonable(extra))
-        os.makedirs(os.path.join(VERIF, "evidence"), exist_ok=True)
-        path = os.path.join(VERIF, "evidence", f"{self.pid}.json")
+        os.makedirs(os.path.join(OUT, "evidence"), exist_ok=True)
+        path = os.path.join(OUT, "evidence", f"{self.pid}.json")
         with open(path, "w") as f:
             json.dump(ev, f, indent=1, sort_keys=True)
             f.write("\n")
